@@ -214,8 +214,12 @@ class CalendarRule(PluginResultIterator):
         return until.astimezone(timezone.utc)
 
     def _at_start_time(self, d: date) -> datetime:
-        """The given date at the start's time of day, in the start's zone"""
-        return datetime.combine(d, self.start_date.time(), tzinfo=self.start_date.tzinfo)
+        """The given date at the start's time of day, in the start's zone
+
+        Whole seconds, like the values of the rule itself: rrule drops the
+        microseconds of its dtstart."""
+        start_time = self.start_date.time().replace(microsecond=0)
+        return datetime.combine(d, start_time, tzinfo=self.start_date.tzinfo)
 
     def _set_output_datetype_date_or_datetime(self, precision: type) -> None:
         """Depending on the precision requested, generate the right kinds of records"""
